@@ -49,6 +49,11 @@ def binary(engine, tier, flavour):
     return dict(name=engine, flavour=flavour, tus=tus, link=list(s.get("link", [])))
 
 
+def cov_exclude(engine):
+    """configurations left out of the -O0 coverage slice (too slow unoptimised)"""
+    return "#huge" if engine.startswith("static_") else ""
+
+
 def R(engine, flavour, cases, **kw):
     d = dict(engine=engine, flavour=flavour, cases=cases)
     d.update(kw)
